@@ -357,45 +357,57 @@ theorem opinv_append (st : Oplog.State) (f : File) (hf : Header) (es : List Entr
 
 /-- the slot a header write produces: the frame, the zero padding, the tail of the old slot -/
 theorem slot_overwrite (s : Bytes) (h : Header) (bit : Bool) (hl : s.length = Spec.headerSize) (hok : HeaderOK h)
-    (fr buf : Bytes) (hfr : frame (encHeader h) bit false = fr)
-    (hbuf : fr ++ List.replicate (Spec.leaderSize + 2 * (encHeader h).length - fr.length) 0 = buf) :
+    (fr buf : Bytes) (sz : Nat) (hsz1 : 8 + (encHeader h).length ≤ sz) (hsz2 : sz ≤ Spec.headerSize)
+    (hfr : frame (encHeader h) bit false = fr) (hbuf : fr ++ List.replicate (sz - fr.length) 0 = buf) :
     (buf ++ s.drop buf.length).length = Spec.headerSize ∧ SlotIs (buf ++ s.drop buf.length) (some (bit, h)) := by
   have hfl : fr.length = 8 + (encHeader h).length := by rw [← hfr]; exact frame_length _ _ _
-  have hbl : buf.length = Spec.leaderSize + 2 * (encHeader h).length := by
+  have hbl : buf.length = sz := by
     rw [← hbuf]
-    simp only [List.length_append, List.length_replicate, hfl, Spec.leaderSize]; omega
+    simp only [List.length_append, List.length_replicate, hfl]; omega
   have hfit := hok.2
-  refine ⟨?_, ⟨List.replicate (Spec.leaderSize + 2 * (encHeader h).length - fr.length) 0 ++ s.drop buf.length, ?_⟩, hok.1, ?_⟩
+  refine ⟨?_, ⟨List.replicate (sz - fr.length) 0 ++ s.drop buf.length, ?_⟩, hok.1, ?_⟩
   · simp only [List.length_append, List.length_drop, hbl, hl]; omega
   · rw [← hbuf, hfr, List.append_assoc]
   · simp only [Spec.leaderSize, Spec.headerSize] at hfit; omega
 
-/-- a flush (header write to the next slot, truncate to 8192) keeps the invariant, for the new header and
-    an empty entry list -/
-theorem opinv_flush (st : Oplog.State) (f : File) (hf : Header) (es : List Entry) (h' : Header)
+/-- the size of the buffer a header write issues: a full slot when traces are cleared -/
+def hdrSize (ct : Bool) (h : Header) : Nat := if ct then Spec.headerSize else Spec.leaderSize + 2 * (encHeader h).length
+
+theorem hdrSize_def (ct : Bool) (h : Header) : hdrSize ct h = if ct then Spec.headerSize else Spec.leaderSize + 2 * (encHeader h).length := rfl
+
+theorem hdrSize_bounds (ct : Bool) (h : Header) (hok : HeaderOK h) : 8 + (encHeader h).length ≤ hdrSize ct h ∧ hdrSize ct h ≤ Spec.headerSize := by
+  have := hok.2
+  unfold hdrSize
+  simp only [Spec.leaderSize, Spec.headerSize] at this ⊢
+  split <;> omega
+
+/-- a header insertion (header write to the next slot — a full slot when traces are cleared —, truncate to 8192)
+    keeps the invariant, for the new header and an empty entry list -/
+theorem opinv_insert (st : Oplog.State) (f : File) (hf : Header) (es : List Entry) (h' : Header) (ct : Bool)
     (h : OpInv st f.toList hf es) (hok : HeaderOK h') :
-    OpInv (Oplog.flush st h' false).1
-      ((Oplog.flush st h' false).2.foldl (fun g op => op.onFile g) f).toList h' [] := by
+    OpInv ({ bits := (Oplog.insertHeader h' 0 st.bits ct).1, entriesLength := 0, entriesByteLength := 0 } : Oplog.State)
+      ((Oplog.insertHeader h' 0 st.bits ct).2.foldl (fun g op => op.onFile g) f).toList h' [] := by
   have hsz := opinv_size st f hf es h
   obtain ⟨s0, s1, l, hb, l0, l1, h0, h1, inv, hebl, _⟩ := h
   have hS : Spec.headerSize = 4096 := rfl
   have hE : Spec.entriesOffset = 8192 := rfl
   obtain ⟨hinv1, hinv2⟩ := Rotation.switch_atomic (h' := h') inv
   generalize hfr : frame (encHeader h') (Spec.nextSlot st.bits.1 st.bits.2).2 false = fr
-  generalize hbuf : fr ++ List.replicate (Spec.leaderSize + 2 * (encHeader h').length - fr.length) 0 = buf
-  have hbl : buf.length = Spec.leaderSize + 2 * (encHeader h').length := by
+  generalize hbuf : fr ++ List.replicate (hdrSize ct h' - fr.length) 0 = buf
+  obtain ⟨hsb1, hsb2⟩ := hdrSize_bounds ct h' hok
+  have hbl : buf.length = hdrSize ct h' := by
     rw [← hbuf, ← hfr]
-    simp only [List.length_append, List.length_replicate, frame_length, Spec.leaderSize]; omega
-  have hfit : buf.length ≤ 4096 := by rw [hbl]; exact hok.2
+    simp only [List.length_append, List.length_replicate, frame_length]; omega
+  have hfit : buf.length ≤ 4096 := by rw [hbl]; exact hsb2
   have hflen : f.toList.length = 8192 + (framesBytes l.entries).length := by
     rw [hb]; simp only [List.length_append, l0, l1, hS]
   cases hsec : (Spec.nextSlot st.bits.1 st.bits.2).1 with
   | true =>
     -- second slot
-    have hso := slot_overwrite s1 h' (Spec.nextSlot st.bits.1 st.bits.2).2 l1 hok fr buf hfr hbuf
-    have hfile : ((Oplog.flush st h' false).2.foldl (fun g op => op.onFile g) f).toList
+    have hso := slot_overwrite s1 h' (Spec.nextSlot st.bits.1 st.bits.2).2 l1 hok fr buf (hdrSize ct h') hsb1 hsb2 hfr hbuf
+    have hfile : ((Oplog.insertHeader h' 0 st.bits ct).2.foldl (fun g op => op.onFile g) f).toList
         = s0 ++ (buf ++ s1.drop buf.length) := by
-      simp only [Oplog.flush, Bool.false_eq_true, ite_false, Oplog.insertHeader, hsec, ite_true, hfr, hbuf,
+      simp only [Oplog.insertHeader, ← hdrSize_def, Bool.false_eq_true, ite_false, hsec, ite_true, hfr, hbuf,
         List.foldl_cons, List.foldl_nil, SOp.onFile, Nat.add_zero]
       rw [File.toList_truncate_le _ _ (by rw [File.size_write, hsz, hE, hS]; omega),
         File.toList_write f Spec.headerSize buf (by rw [hsz, hE, hS]; omega), hb]
@@ -419,16 +431,16 @@ theorem opinv_flush (st : Oplog.State) (f : File) (hf : Header) (es : List Entry
     · rw [hfile]; simp [framesBytes]
     · simpa [Rotation.Log.writeNext, hsec] using h0
     · simpa [Rotation.Log.writeNext, hsec] using hso.2
-    · have : (Oplog.flush st h' false).1.bits = ((Bits.next ⟨st.bits.1, st.bits.2⟩).b0, (Bits.next ⟨st.bits.1, st.bits.2⟩).b1) := by
-        simp only [Oplog.flush, Bool.false_eq_true, ite_false, Oplog.insertHeader, hsec, ite_true, Bits.next]
+    · have : ({ bits := (Oplog.insertHeader h' 0 st.bits ct).1, entriesLength := 0, entriesByteLength := 0 } : Oplog.State).bits = ((Bits.next ⟨st.bits.1, st.bits.2⟩).b0, (Bits.next ⟨st.bits.1, st.bits.2⟩).b1) := by
+        simp only [Oplog.insertHeader, ← hdrSize_def, Bool.false_eq_true, ite_false, hsec, ite_true, Bits.next]
       rw [this]; exact hinv2
     · simp [Oplog.flush, framesBytes]
     · intro e he; cases he
   | false =>
-    have hso := slot_overwrite s0 h' (Spec.nextSlot st.bits.1 st.bits.2).2 l0 hok fr buf hfr hbuf
-    have hfile : ((Oplog.flush st h' false).2.foldl (fun g op => op.onFile g) f).toList
+    have hso := slot_overwrite s0 h' (Spec.nextSlot st.bits.1 st.bits.2).2 l0 hok fr buf (hdrSize ct h') hsb1 hsb2 hfr hbuf
+    have hfile : ((Oplog.insertHeader h' 0 st.bits ct).2.foldl (fun g op => op.onFile g) f).toList
         = (buf ++ s0.drop buf.length) ++ s1 := by
-      simp only [Oplog.flush, Bool.false_eq_true, ite_false, Oplog.insertHeader, hsec, hfr, hbuf,
+      simp only [Oplog.insertHeader, ← hdrSize_def, Bool.false_eq_true, ite_false, hsec, hfr, hbuf,
         List.foldl_cons, List.foldl_nil, SOp.onFile, Nat.add_zero]
       rw [File.toList_truncate_le _ _ (by rw [File.size_write, hsz, hE]; omega),
         File.toList_write f 0 buf (Nat.zero_le _), hb]
@@ -445,17 +457,26 @@ theorem opinv_flush (st : Oplog.State) (f : File) (hf : Header) (es : List Entry
     · rw [hfile]; simp [framesBytes]
     · simpa [Rotation.Log.writeNext, hsec] using hso.2
     · simpa [Rotation.Log.writeNext, hsec] using h1
-    · have : (Oplog.flush st h' false).1.bits = ((Bits.next ⟨st.bits.1, st.bits.2⟩).b0, (Bits.next ⟨st.bits.1, st.bits.2⟩).b1) := by
-        simp only [Oplog.flush, Bool.false_eq_true, ite_false, Oplog.insertHeader, hsec, Bits.next]
+    · have : ({ bits := (Oplog.insertHeader h' 0 st.bits ct).1, entriesLength := 0, entriesByteLength := 0 } : Oplog.State).bits = ((Bits.next ⟨st.bits.1, st.bits.2⟩).b0, (Bits.next ⟨st.bits.1, st.bits.2⟩).b1) := by
+        simp only [Oplog.insertHeader, ← hdrSize_def, Bool.false_eq_true, ite_false, hsec, Bits.next]
       rw [this]; exact hinv2
     · simp [Oplog.flush, framesBytes]
     · intro e he; cases he
 
+/-- a flush (header write to the next slot, truncate to 8192) keeps the invariant, for the new header and
+    an empty entry list -/
+theorem opinv_flush (st : Oplog.State) (f : File) (hf : Header) (es : List Entry) (h' : Header)
+    (h : OpInv st f.toList hf es) (hok : HeaderOK h') :
+    OpInv (Oplog.flush st h' false).1
+      ((Oplog.flush st h' false).2.foldl (fun g op => op.onFile g) f).toList h' [] := by
+  have := opinv_insert st f hf es h' false h hok
+  simpa [Oplog.flush] using this
+
 /-- the header write of a flush torn after `t` bytes, under the assumption that the checksum rejects the
     half-written slot: the invariant still holds — same in-memory state, same header, same entries -/
-theorem opinv_torn_header (st : Oplog.State) (f : File) (hf : Header) (es : List Entry) (h' : Header) (t : Nat)
+theorem opinv_torn_header (st : Oplog.State) (f : File) (hf : Header) (es : List Entry) (h' : Header) (ct : Bool) (t : Nat)
     (h : OpInv st f.toList hf es) (hok : HeaderOK h') (off : Nat) (bs : Bytes)
-    (hop : (Oplog.flush st h' false).2.head? = some (.write .oplog off bs))
+    (hop : (Oplog.insertHeader h' 0 st.bits ct).2.head? = some (.write .oplog off bs))
     (hcrc : validateLeader (((f.write off (bs.take t)).toList.drop off).take Spec.headerSize) = none) :
     OpInv st (f.write off (bs.take t)).toList hf es := by
   have hsz := opinv_size st f hf es h
@@ -464,14 +485,15 @@ theorem opinv_torn_header (st : Oplog.State) (f : File) (hf : Header) (es : List
   have hE : Spec.entriesOffset = 8192 := rfl
   have hinvT := Rotation.tear_inv inv
   generalize hfr : frame (encHeader h') (Spec.nextSlot st.bits.1 st.bits.2).2 false = fr at hop
-  generalize hbuf : fr ++ List.replicate (Spec.leaderSize + 2 * (encHeader h').length - fr.length) 0 = buf at hop
-  have hbl : buf.length = Spec.leaderSize + 2 * (encHeader h').length := by
+  generalize hbuf : fr ++ List.replicate (hdrSize ct h' - fr.length) 0 = buf at hop
+  obtain ⟨hsb1, hsb2⟩ := hdrSize_bounds ct h' hok
+  have hbl : buf.length = hdrSize ct h' := by
     rw [← hbuf, ← hfr]
-    simp only [List.length_append, List.length_replicate, frame_length, Spec.leaderSize]; omega
-  have hfit : buf.length ≤ 4096 := by rw [hbl]; exact hok.2
+    simp only [List.length_append, List.length_replicate, frame_length]; omega
+  have hfit : buf.length ≤ 4096 := by rw [hbl]; exact hsb2
   cases hsec : (Spec.nextSlot st.bits.1 st.bits.2).1 with
   | true =>
-    simp only [Oplog.flush, Bool.false_eq_true, ite_false, Oplog.insertHeader, hsec, ite_true, hfr, hbuf, List.head?_cons,
+    simp only [Oplog.insertHeader, ← hdrSize_def, Bool.false_eq_true, ite_false, hsec, ite_true, hfr, hbuf, List.head?_cons,
       Option.some.injEq, SOp.write.injEq, true_and] at hop
     obtain ⟨rfl, rfl⟩ := hop
     generalize hq : buf.take t = q at hcrc ⊢
@@ -502,7 +524,7 @@ theorem opinv_torn_header (st : Oplog.State) (f : File) (hf : Header) (es : List
     · simpa [Rotation.Log.tearNext, hsec, SlotIs] using hcrc
     · simpa [Rotation.Log.tearNext, hsec] using hebl
   | false =>
-    simp only [Oplog.flush, Bool.false_eq_true, ite_false, Oplog.insertHeader, hsec, hfr, hbuf, List.head?_cons,
+    simp only [Oplog.insertHeader, ← hdrSize_def, Bool.false_eq_true, ite_false, hsec, hfr, hbuf, List.head?_cons,
       Option.some.injEq, SOp.write.injEq, true_and] at hop
     obtain ⟨rfl, rfl⟩ := hop
     generalize hq : buf.take t = q at hcrc ⊢
@@ -594,28 +616,29 @@ theorem mid_open (S0 S1 : Bytes) (l' : Rotation.Log Header Entry) (g : File) (bi
 /-- the crash point inside a flush: the header is written to the next slot, the entry region is not yet
     truncated.  `Oplog::open` returns the **new** header and no entries (the stale frames carry the
     other header bit) and cuts the stale region off; the protocol invariant holds for what is left. -/
-theorem opinv_flush_mid (st : Oplog.State) (f : File) (hf : Header) (es : List Entry) (h' : Header)
+theorem opinv_flush_mid (st : Oplog.State) (f : File) (hf : Header) (es : List Entry) (h' : Header) (ct : Bool)
     (h : OpInv st f.toList hf es) (hok : HeaderOK h') :
-    ∃ ost ops, openLog none (((Oplog.flush st h' false).2.take 1).foldl (fun g op => op.onFile g) f).toList = .ok ⟨ost, h', ops, []⟩
+    ∃ ost ops, openLog none (((Oplog.insertHeader h' 0 st.bits ct).2.take 1).foldl (fun g op => op.onFile g) f).toList = .ok ⟨ost, h', ops, []⟩
       ∧ (∀ op ∈ ops, op.store = .oplog)
-      ∧ OpInv ost (ops.foldl (fun g op => op.onFile g) (((Oplog.flush st h' false).2.take 1).foldl (fun g op => op.onFile g) f)).toList h' [] := by
+      ∧ OpInv ost (ops.foldl (fun g op => op.onFile g) (((Oplog.insertHeader h' 0 st.bits ct).2.take 1).foldl (fun g op => op.onFile g) f)).toList h' [] := by
   have hsz := opinv_size st f hf es h
   obtain ⟨s0, s1, l, hb, l0, l1, h0, h1, inv, hebl, hoks⟩ := h
   have hS : Spec.headerSize = 4096 := rfl
   have hE : Spec.entriesOffset = 8192 := rfl
   obtain ⟨⟨b', hopen, hcur, _⟩, hinv2⟩ := Rotation.switch_atomic (h' := h') inv
   generalize hfr : frame (encHeader h') (Spec.nextSlot st.bits.1 st.bits.2).2 false = fr
-  generalize hbuf : fr ++ List.replicate (Spec.leaderSize + 2 * (encHeader h').length - fr.length) 0 = buf
-  have hbl : buf.length = Spec.leaderSize + 2 * (encHeader h').length := by
+  generalize hbuf : fr ++ List.replicate (hdrSize ct h' - fr.length) 0 = buf
+  obtain ⟨hsb1, hsb2⟩ := hdrSize_bounds ct h' hok
+  have hbl : buf.length = hdrSize ct h' := by
     rw [← hbuf, ← hfr]
-    simp only [List.length_append, List.length_replicate, frame_length, Spec.leaderSize]; omega
-  have hfit : buf.length ≤ 4096 := by rw [hbl]; exact hok.2
+    simp only [List.length_append, List.length_replicate, frame_length]; omega
+  have hfit : buf.length ≤ 4096 := by rw [hbl]; exact hsb2
   cases hsec : (Spec.nextSlot st.bits.1 st.bits.2).1 with
   | true =>
-    have hso := slot_overwrite s1 h' (Spec.nextSlot st.bits.1 st.bits.2).2 l1 hok fr buf hfr hbuf
-    have hfile : (((Oplog.flush st h' false).2.take 1).foldl (fun g op => op.onFile g) f).toList
+    have hso := slot_overwrite s1 h' (Spec.nextSlot st.bits.1 st.bits.2).2 l1 hok fr buf (hdrSize ct h') hsb1 hsb2 hfr hbuf
+    have hfile : (((Oplog.insertHeader h' 0 st.bits ct).2.take 1).foldl (fun g op => op.onFile g) f).toList
         = s0 ++ (buf ++ s1.drop buf.length) ++ framesBytes l.entries := by
-      simp only [Oplog.flush, Bool.false_eq_true, ite_false, Oplog.insertHeader, hsec, ite_true, hfr, hbuf,
+      simp only [Oplog.insertHeader, ← hdrSize_def, Bool.false_eq_true, ite_false, hsec, ite_true, hfr, hbuf,
         List.take_succ_cons, List.take_zero, List.foldl_cons, List.foldl_nil, SOp.onFile]
       rw [File.toList_write f Spec.headerSize buf (by rw [hsz, hE, hS]; omega), hb]
       have t0 : (s0 ++ s1 ++ framesBytes l.entries).take Spec.headerSize = s0 := by
@@ -634,10 +657,10 @@ theorem opinv_flush_mid (st : Oplog.State) (f : File) (hf : Header) (es : List E
     exact mid_open s0 (buf ++ s1.drop buf.length) ⟨l.s0, some ((Spec.nextSlot st.bits.1 st.bits.2).2, h'), l.entries⟩ _
       ⟨st.bits.1, st.bits.2⟩ h' es hfile l0 hso.1 h0 hso.2 inv.ents hoks b' hopen hcur hinv2
   | false =>
-    have hso := slot_overwrite s0 h' (Spec.nextSlot st.bits.1 st.bits.2).2 l0 hok fr buf hfr hbuf
-    have hfile : (((Oplog.flush st h' false).2.take 1).foldl (fun g op => op.onFile g) f).toList
+    have hso := slot_overwrite s0 h' (Spec.nextSlot st.bits.1 st.bits.2).2 l0 hok fr buf (hdrSize ct h') hsb1 hsb2 hfr hbuf
+    have hfile : (((Oplog.insertHeader h' 0 st.bits ct).2.take 1).foldl (fun g op => op.onFile g) f).toList
         = (buf ++ s0.drop buf.length) ++ s1 ++ framesBytes l.entries := by
-      simp only [Oplog.flush, Bool.false_eq_true, ite_false, Oplog.insertHeader, hsec, hfr, hbuf,
+      simp only [Oplog.insertHeader, ← hdrSize_def, Bool.false_eq_true, ite_false, hsec, hfr, hbuf,
         List.take_succ_cons, List.take_zero, List.foldl_cons, List.foldl_nil, SOp.onFile]
       rw [File.toList_write f 0 buf (Nat.zero_le _), hb]
       simp only [List.take_zero, List.nil_append, Nat.zero_add]
@@ -651,6 +674,83 @@ theorem opinv_flush_mid (st : Oplog.State) (f : File) (hf : Header) (es : List E
     rw [hw] at hopen hinv2
     exact mid_open (buf ++ s0.drop buf.length) s1 ⟨some ((Spec.nextSlot st.bits.1 st.bits.2).2, h'), l.s1, l.entries⟩ _
       ⟨st.bits.1, st.bits.2⟩ h' es hfile hso.1 l1 hso.2 h1 inv.ents hoks b' hopen hcur hinv2
+
+/-- a header write without the truncate, on a log that has no entries: the invariant holds for the new header
+    (the second header write of `make_read_only`) -/
+theorem opinv_header_only (st : Oplog.State) (f : File) (hf : Header) (h' : Header) (ct : Bool)
+    (h : OpInv st f.toList hf []) (hok : HeaderOK h') :
+    OpInv ({ bits := (Oplog.insertHeader h' 0 st.bits ct).1, entriesLength := 0, entriesByteLength := 0 } : Oplog.State)
+      (((Oplog.insertHeader h' 0 st.bits ct).2.take 1).foldl (fun g op => op.onFile g) f).toList h' [] := by
+  have hsz := opinv_size st f hf [] h
+  obtain ⟨s0, s1, l, hb, l0, l1, h0, h1, inv, hebl, hoks⟩ := h
+  have hS : Spec.headerSize = 4096 := rfl
+  have hE : Spec.entriesOffset = 8192 := rfl
+  obtain ⟨_, hinv2⟩ := Rotation.switch_atomic (h' := h') inv
+  have hents : l.entries = [] := by rw [inv.ents]; rfl
+  rw [hents] at hb
+  have hebl0 : st.entriesByteLength = 0 := by rw [hebl, hents]; simp [framesBytes]
+  generalize hfr : frame (encHeader h') (Spec.nextSlot st.bits.1 st.bits.2).2 false = fr
+  generalize hbuf : fr ++ List.replicate (hdrSize ct h' - fr.length) 0 = buf
+  obtain ⟨hsb1, hsb2⟩ := hdrSize_bounds ct h' hok
+  have hbl : buf.length = hdrSize ct h' := by
+    rw [← hbuf, ← hfr]
+    simp only [List.length_append, List.length_replicate, frame_length]; omega
+  have hfit : buf.length ≤ 4096 := by rw [hbl]; exact hsb2
+  have hfb : framesBytes ([] : List (Rotation.Frame Entry)) = [] := by simp [framesBytes]
+  rw [hfb, List.append_nil] at hb
+  cases hsec : (Spec.nextSlot st.bits.1 st.bits.2).1 with
+  | true =>
+    have hso := slot_overwrite s1 h' (Spec.nextSlot st.bits.1 st.bits.2).2 l1 hok fr buf (hdrSize ct h') hsb1 hsb2 hfr hbuf
+    have hfile : (((Oplog.insertHeader h' 0 st.bits ct).2.take 1).foldl (fun g op => op.onFile g) f).toList
+        = s0 ++ (buf ++ s1.drop buf.length) := by
+      simp only [Oplog.insertHeader, ← hdrSize_def, hsec, ite_true, hfr, hbuf,
+        List.take_succ_cons, List.take_zero, List.foldl_cons, List.foldl_nil, SOp.onFile]
+      rw [File.toList_write f Spec.headerSize buf (by rw [hsz, hE, hS]; omega), hb]
+      have t0 : (s0 ++ s1).take Spec.headerSize = s0 := by
+        rw [List.take_append_of_le_length (by omega)]
+        exact List.take_of_length_le (by omega)
+      have d0 : (s0 ++ s1).drop (Spec.headerSize + buf.length) = s1.drop buf.length := by
+        rw [← List.drop_drop, List.drop_append_of_le_length (by omega)]
+        simp only [List.drop_of_length_le (Nat.le_of_eq l0), List.nil_append]
+      rw [t0, d0]
+      simp only [List.append_assoc]
+    refine ⟨s0, buf ++ s1.drop buf.length, { (l.writeNext ⟨st.bits.1, st.bits.2⟩ h') with entries := [] }, ?_, l0, hso.1, ?_, ?_, ?_, ?_, ?_⟩
+    · rw [hfile]; simp [framesBytes]
+    · simpa [Rotation.Log.writeNext, hsec] using h0
+    · simpa [Rotation.Log.writeNext, hsec] using hso.2
+    · have : (Oplog.insertHeader h' 0 st.bits ct).1 = ((Bits.next ⟨st.bits.1, st.bits.2⟩).b0, (Bits.next ⟨st.bits.1, st.bits.2⟩).b1) := by
+        simp only [Oplog.insertHeader, hsec, ite_true, Bits.next]
+      rw [this]; exact hinv2
+    · simp [framesBytes]
+    · intro e he; cases he
+  | false =>
+    have hso := slot_overwrite s0 h' (Spec.nextSlot st.bits.1 st.bits.2).2 l0 hok fr buf (hdrSize ct h') hsb1 hsb2 hfr hbuf
+    have hfile : (((Oplog.insertHeader h' 0 st.bits ct).2.take 1).foldl (fun g op => op.onFile g) f).toList
+        = (buf ++ s0.drop buf.length) ++ s1 := by
+      simp only [Oplog.insertHeader, ← hdrSize_def, hsec, Bool.false_eq_true, ite_false, hfr, hbuf,
+        List.take_succ_cons, List.take_zero, List.foldl_cons, List.foldl_nil, SOp.onFile]
+      rw [File.toList_write f 0 buf (Nat.zero_le _), hb]
+      simp only [List.take_zero, List.nil_append, Nat.zero_add]
+      rw [List.drop_append_of_le_length (by omega)]
+      simp only [List.append_assoc]
+    refine ⟨buf ++ s0.drop buf.length, s1, { (l.writeNext ⟨st.bits.1, st.bits.2⟩ h') with entries := [] }, ?_, hso.1, l1, ?_, ?_, ?_, ?_, ?_⟩
+    · rw [hfile]; simp [framesBytes]
+    · simpa [Rotation.Log.writeNext, hsec] using hso.2
+    · simpa [Rotation.Log.writeNext, hsec] using h1
+    · have : (Oplog.insertHeader h' 0 st.bits ct).1 = ((Bits.next ⟨st.bits.1, st.bits.2⟩).b0, (Bits.next ⟨st.bits.1, st.bits.2⟩).b1) := by
+        simp only [Oplog.insertHeader, hsec, Bool.false_eq_true, ite_false, Bits.next]
+      rw [this]; exact hinv2
+    · simp [framesBytes]
+    · intro e he; cases he
+
+/-- `make_read_only`'s flush (header, truncate, header again — both slots rewritten as full slots) keeps the invariant -/
+theorem opinv_flush_traces (st : Oplog.State) (f : File) (hf : Header) (es : List Entry) (h' : Header)
+    (h : OpInv st f.toList hf es) (hok : HeaderOK h') :
+    OpInv (Oplog.flush st h' true).1 ((Oplog.flush st h' true).2.foldl (fun g op => op.onFile g) f).toList h' [] := by
+  have h1 := opinv_insert st f hf es h' true h hok
+  have h2 := opinv_header_only _ _ h' h' true h1 hok
+  simp only [Oplog.flush, ite_true, List.foldl_append]
+  exact h2
 
 /-- opening a store that satisfies the invariant up to a tail that is no frame (nothing, or the prefix of an
     entry whose write was torn): the tail is cut off and the invariant holds for what is left -/
@@ -699,8 +799,8 @@ theorem opinv_open_tail (st : Oplog.State) (f : File) (base tail : Bytes) (hf : 
     header write and its truncate -/
 def OpImage (f : File) (hf : Header) (es : List Entry) : Prop :=
   (∃ st base tail, OpInv st base hf es ∧ f.toList = base ++ tail ∧ validateLeader tail = none)
-    ∨ (∃ st f0 hf0 es0, OpInv st f0.toList hf0 es0 ∧ HeaderOK hf ∧ es = []
-        ∧ f = ((Oplog.flush st hf false).2.take 1).foldl (fun g op => op.onFile g) f0)
+    ∨ (∃ st f0 hf0 es0 ct, OpInv st f0.toList hf0 es0 ∧ HeaderOK hf ∧ es = []
+        ∧ f = ((Oplog.insertHeader hf 0 st.bits ct).2.take 1).foldl (fun g op => op.onFile g) f0)
 
 theorem opimage_of_inv (st : Oplog.State) (f : File) (hf : Header) (es : List Entry) (h : OpInv st f.toList hf es) : OpImage f hf es :=
   Or.inl ⟨st, f.toList, [], h, by simp, validateLeader_nil⟩
@@ -729,9 +829,9 @@ theorem opimage_torn_entry (st : Oplog.State) (f : File) (hf : Header) (es : Lis
 theorem opimage_open (f : File) (hf : Header) (es : List Entry) (h : OpImage f hf es) :
     ∃ ost ops, openLog none f.toList = .ok ⟨ost, hf, ops, es⟩ ∧ (∀ op ∈ ops, op.store = .oplog)
       ∧ OpInv ost (ops.foldl (fun g op => op.onFile g) f).toList hf es := by
-  rcases h with ⟨st, base, tail, hi, hb, ht⟩ | ⟨st, f0, hf0, es0, hi, hok, rfl, rfl⟩
+  rcases h with ⟨st, base, tail, hi, hb, ht⟩ | ⟨st, f0, hf0, es0, ct, hi, hok, rfl, rfl⟩
   · exact opinv_open_tail st f base tail hf es hi hb ht
-  · exact opinv_flush_mid st f0 hf0 es0 hf hi hok
+  · exact opinv_flush_mid st f0 hf0 es0 hf ct hi hok
 
 theorem leVal_zeros (k : Nat) : leVal (List.replicate k (0 : UInt8)) = 0 := by
   induction k with
